@@ -2,7 +2,7 @@
 import ast
 import re
 
-from ..model import AnalysisError, callee, norm, src, walk_no_nested, iter_child_stmts, kwarg
+from ..model import AnalysisError, callee, norm, src, walk_no_nested, iter_child_stmts, kwarg, before
 from ..cfg import CFG, ReachingDefs
 from ..symwalk import State, Lin, Obj
 from .c02 import PageWalker, _find_page_loop
@@ -28,8 +28,10 @@ def run(ctx):
     r43_45(ctx, api)
     r44(ctx, wr)
     r46(ctx, api)
-    from . import c02
+    from . import c02, c05, c20
     c02.r27(ctx, 'R4.7')
+    c05.r55(ctx, api)        # sorted_partitioned_columns(filters=...) goes through filter_row_groups(as_idx=True)
+    c20.r202(ctx)            # pf[i].statistics must be computed for the slice, not inherited
     from . import callsigs as _cs
     _cs.general_rules(ctx, 'R4', ['writer.write', 'writer.write_simple', 'writer.write_multi', 'writer.make_row_group', 'writer.make_part_file', 'writer.partition_on_columns', 'api.statistics', 'api.sorted_partitioned_columns'])
 
@@ -87,7 +89,7 @@ def r41(ctx, wr):
         ctx.ob('R4.1', 'writer.write_column:Statistics#%d-null_count-is-the-chunk-tally' % (i + 1),
                norm(kwarg(c, 'null_count')) == 'global_num_nulls', norm(c), wr.loc(c))
     init = [s for s in f.body if isinstance(s, ast.Assign) and norm(s) == 'global_num_nulls = 0']
-    ctx.ob('R4.1', 'writer.write_column:tally-starts-at-zero-before-the-loop', len(init) == 1 and f.body.index(init[0]) < f.body.index(loop), '', wr.loc(f))
+    ctx.ob('R4.1', 'writer.write_column:tally-starts-at-zero-before-the-loop', len(init) == 1 and before(f.body, init[0], loop), '', wr.loc(f))
     smin = [c for c in stats if kwarg(c, 'max') is not None]
     ctx.ob('R4.1', 'writer.write_column:min-max-attached-only-when-stats-still-true',
            len(smin) == 1 and norm(kwarg(smin[0], 'max')) == 'max' and norm(kwarg(smin[0], 'min')) == 'min' and
